@@ -793,3 +793,37 @@ func argsOf(ci ssa.CallInstruction) []ssa.Value {
 	}
 	return args
 }
+
+// deref: v with conversions stripped and, when v loads a local that is stored exactly once
+// (a variable captured by a closure is such a cell), the value stored.
+func deref(v ssa.Value) ssa.Value {
+	for n := 0; n < 4; n++ {
+		v = strip(v)
+		ld, ok := v.(*ssa.UnOp)
+		if !ok || ld.Op != token.MUL {
+			return v
+		}
+		base := ld.X
+		for k := 0; k < 4; k++ {
+			fv, ok := base.(*ssa.FreeVar)
+			if !ok {
+				break
+			}
+			b := freeVarBinding(fv)
+			if b == nil {
+				break
+			}
+			base = b
+		}
+		a, ok := base.(*ssa.Alloc)
+		if !ok {
+			return v
+		}
+		sv := singleStore(a)
+		if sv == nil {
+			return v
+		}
+		v = sv
+	}
+	return v
+}
